@@ -119,13 +119,13 @@ int main(int argc, char** argv) {
       if (!ok && !(tz == cctz::utc_time_zone())) ctx.viol("C12", "failed-load-not-utc:" + cls, "mutation=" + label + " base=" + base.name);
       if (ok && tz.name() != name) ctx.viol("C12", "loaded-zone-wrong-name:" + cls, "mutation=" + label);
       ctx.set_case("class=%s op=queries-after-load#%d ok=%d base=%s/%s mutation=%s size=%zu", cls.c_str(), rep + 1, ok, base.cls.c_str(), base.name.c_str(), label.c_str(), bytes.size());
-      digest_zone(tz, ok, extra, &d[rep]);
+      digest_zone(tz, ok, extra, &d[rep], rep == 1);
     }
     ctx.stat(okv[0] ? "C12.loads_succeeded" : "C12.loads_failed");
     if (okv[0]) ctx.stat("C12.loaded." + cls);
     ctx.distinct("C12", sup::fnvs(bytes));
     if (d[0].h != d[1].h || okv[0] != okv[1]) {
-      ctx.viol("C12", "nondeterministic-in-process:" + cls, "mutation=" + label + " base=" + base.name + " first=" + d[0].text.substr(0, 300) + " second=" + d[1].text.substr(0, 300));
+      ctx.viol("C12", "outcome-depends-on-load-or-query-order:" + cls, "mutation=" + label + " base=" + base.name + " first=" + d[0].text.substr(0, 300) + " second=" + d[1].text.substr(0, 300));
     }
     fprintf(ctx.out, "DIGEST\t%ld\t%016llx\t%d\t%s\t%s\n", c, (unsigned long long)d[0].h, okv[0] ? 1 : 0, cls.c_str(), sup::esc(label).c_str());
     if (digest_only) return;
